@@ -127,7 +127,7 @@ def standard_run(pid, tier, seed, plan, level_text=None):
         hs = generate(chk, g["name"], g["consts"], simulate=g.get("simulate"), depth=g.get("depth", 400),
                       seed=seed if g.get("simulate") else None,
                       invariants=INV_LIST + ["Emit"], properties=(),
-                      timeout=g.get("timeout", 1200), max_hist=g.get("max_hist"),
+                      timeout=g.get("timeout", 1200 if tier == "quick" else 3000), max_hist=g.get("max_hist"),
                       constraint=g.get("constraint", "GenConstraint"))
         if not hs:
             raise vkit.InfraError("generator %s produced no histories" % g["name"])
